@@ -376,7 +376,8 @@ func (cc *chainCase) viol(key, detail string, wit interface{}) {
 		if a != nil && b != nil {
 			for _, k := range append([]string{"verdict"}, components...) {
 				if a[k] != b[k] {
-					key += "/depends-on-wasm-app-cache"
+					detail = "(" + key + ") " + detail
+					key = "process-cache/wasm-app-cache-changes-block-result"
 					detail += fmt.Sprintf(" [re-executed on two replicas reopened from the same bytes: %s differs between the process-wide WASM module cache as left by earlier executions and an empty one]", k)
 					break
 				}
